@@ -30,7 +30,7 @@ META = dict(
     assumptions=["lists with zero samples are not generated (degenerate: nothing to load)",
                  "simulated communicator instead of a real MPI library (cannot be loaded here)"],
     need=["loads_checked", "saves_done", "stat_comparisons", "hdf5_datasets_checked", "mpi_ops"],
-    quick=dict(cases=420, workers=8, budget_s=75),
+    quick=dict(cases=420, workers=14, budget_s=75),
     thorough=dict(cases=8000, workers=16, budget_s=900),
     design_ref="DESIGN.md §5 C26",
     level_text="generated histories against a reference model; exploration, not exhaustive",
